@@ -210,7 +210,10 @@ class _RootNameCollector(cst.CSTVisitor):
             if self._in_target == 0:
                 self.names.add(chain[0])
             return False
-        return True
+        # Not a pure chain (``type(x).__name__``, ``f(y).member``): only the
+        # receiver expression can read names, the member name is not a reference.
+        node.value.visit(self)
+        return False
 
     def visit_Name(self, node: cst.Name) -> bool:  # noqa: N802
         if self._in_target == 0:
